@@ -56,7 +56,21 @@ FINDING (genuine, reproduced: native/src/bin/f_relocate_1.rs; Kani twins k_eslic
   `offset_from` on a reader that is no longer inside `section`: debug builds panic in EndianSlice::offset_from
   (`debug_assert!(base_ptr <= ptr)`), where the bare reader returns UnexpectedEof.
   Minimal fix: EndianSlice::empty `self.slice = &self.slice[..0];` + core.py `empty` ensures `trunc(O, F, 0)`;
-  or locally RelocateReader::empty `let n = self.reader.len(); let _ = self.reader.skip(n);`.
+  or locally RelocateReader::empty `let n = self.reader.len(); let _ = self.reader.skip(n);`
+  (with the local fix applied to a scratch copy the batch exits 0: 53 fns, 168 clauses, 0 errors).
+
+Self-attack (scratch copy of /repo, GIMLI_REPO=...; every mutant exits 1 with the tagged clause named, plus the finding)
+  split also truncates `section`                 -> [C10/C18:reloc-split-keeps-section] (+ Reader::split [C01:eof-exact])
+  split: `other.section = other.reader.clone()`  -> [C10/C18:reloc-split-keeps-section]
+  new override `read_u64` that relocates         -> Reader::read_u64 [C09:fixed-value], [C01:eof-exact], [C01:err-no-consume],
+                                                    offset_from precondition [C10:offset-from-pre] (stub replaced by the body)
+  read_sized_offset returns the raw value        -> [C18:reloc-sized-offset]
+  read_address: offset taken AFTER the read      -> [C18:reloc-address]
+  skip delegates to `self.section`               -> Reader::skip [C10:view], [C01:eof-exact]; [C10/C18:reloc-section-kept]
+  offset_from uses `base.section`                -> Reader::offset_from [C10:offset-from], [C10:offset-from-pre]
+  read_offset reads a 4-byte sized offset        -> [C18:reloc-offset], [C10:reloc-identity-value]
+  read_offset: offset relative to `self.reader`  -> [C18:reloc-offset]
+  truncate does nothing                          -> Reader::truncate [C10:view], [C01:eof-exact]
 """
 import re
 from lib import *
